@@ -328,3 +328,64 @@ func loopHeaderOf(b *ssa.BasicBlock) *ssa.BasicBlock {
 	}
 	return nil
 }
+
+// ruleHandshakeHeaderLayout (C12 / C18): the 12-byte handshake header on the wire is
+// msg_type(1) length(3) message_seq(2) fragment_offset(3) fragment_length(3), each taken from the
+// field of the same name, most significant byte first (RFC 6347 4.2.2). A fragment offset or
+// length with a byte from the wrong field reassembles to a different message, or never.
+func ruleHandshakeHeaderLayout(c *Ctx, r *Report) {
+	const rule = "handshake-header-layout"
+	fn := c.need(r, rule, "(*pkg/protocol/handshake.Header).Marshal")
+	if fn == nil {
+		return
+	}
+	r.Sites += len(fn.Blocks)
+	v, ret := singleReturn(fn, 0)
+	if v == nil {
+		r.Unk(rule, short(fn), c.pos(fn.Pos()), "no unique returned value")
+		return
+	}
+	l, err := c.LayoutOf(v, ret, 0)
+	c.checkLayout(r, rule, short(fn), ret, l, err,
+		"h.Type[0] h.Length[2..0] h.MessageSequence[1..0] h.FragmentOffset[2..0] h.FragmentLength[2..0]",
+		"RFC 6347 4.2.2 handshake header: msg_type, uint24 length, uint16 message_seq, uint24 fragment_offset, uint24 fragment_length")
+}
+
+// rulePopAfterPush (C12): once a record's fragments were pushed into the reassembly buffer, the
+// receiver drains the buffer (Pop until empty) before it reports the record as handled - also for
+// a record that contained an already seen fragment, because such a record may still carry the
+// fragment that completes the next message (a peer is free to re-pack fragments on retransmission).
+func rulePopAfterPush(c *Ctx, r *Report) {
+	const rule = "pop-after-push"
+	fn := c.need(r, rule, "(*dtls.Conn).bufferHandshakeRecord")
+	if fn == nil {
+		return
+	}
+	r.Sites += len(fn.Blocks)
+	pushes := findCalls(fn, nameHasSuffix("FragmentBuffer).Push"))
+	pops := map[ssa.Instruction]bool{}
+	for _, p := range findCalls(fn, nameHasSuffix("FragmentBuffer).Pop")) {
+		pops[p] = true
+	}
+	if len(pushes) != 1 || len(pops) == 0 {
+		r.Unk(rule, short(fn), c.pos(fn.Pos()), "expected one Push and at least one Pop call")
+		return
+	}
+	errV := errResult(pushes[0])
+	isHS := resultValue(pushes[0], 0) // "the record was a handshake record and was buffered"
+	w := &Walk{Fn: fn, Assume: func(v ssa.Value) (Val, bool) {
+		if v == errV {
+			return vNil(true), true
+		}
+		if isHS != nil && v == isHS {
+			return vBool(true), true
+		}
+		return unknown, false
+	}, Visit: func(in ssa.Instruction, _ Env) bool { return !pops[in] }}
+	w.After(pushes[0])
+	var bad []string
+	for _, ro := range w.Returns {
+		bad = append(bad, c.ipos(ro.Ret))
+	}
+	r.Check(len(bad) == 0, rule, short(fn), c.ipos(pushes[0]), "after a successful Push every return is preceded by a Pop", "a record whose fragments were buffered can be reported as handled without draining the reassembly buffer (returns at "+strings.Join(bad, ", ")+"): a message completed by that record is never delivered")
+}
